@@ -191,16 +191,20 @@ def mergeShuffled {V : Type} (order : List (Nat × Nat)) (ins : List (MergeInput
 def stackedCard {V : Type} (ins : List (MergeInput V)) : Card :=
   ins.foldl (fun c m => c.max m.index.card) .full
 
+/-- one input of `stacked.rs::get_doc_ids_with_values`: its rows with values, shifted by the
+number of rows stacked so far -/
+def stackedStep {V : Type} (acc : List Nat × Nat) (m : MergeInput V) : List Nat × Nat :=
+  let n := m.index.numDocs m.vals.length
+  let rows := match m.index with
+    | .empty _ => []
+    | .full => List.range n
+    | .optional nn _ => nn
+    | .multivalued nn _ _ => nn
+  (acc.1 ++ rows.map (· + acc.2), acc.2 + n)
+
 /-- mirrors: stacked.rs::get_doc_ids_with_values shifted by the segment's first row -/
 def stackedNonNull {V : Type} (ins : List (MergeInput V)) : List Nat :=
-  (ins.foldl (fun (acc : List Nat × Nat) m =>
-      let n := m.index.numDocs m.vals.length
-      let rows := match m.index with
-        | .empty _ => []
-        | .full => List.range n
-        | .optional nn _ => nn
-        | .multivalued nn _ _ => nn
-      (acc.1 ++ rows.map (· + acc.2), acc.2 + n)) ([], 0)).1
+  (ins.foldl stackedStep ([], 0)).1
 
 /-- mirrors: stacked.rs::get_num_values_iterator, concatenated -/
 def stackedNumVals {V : Type} (ins : List (MergeInput V)) : List Nat :=
